@@ -81,6 +81,15 @@ def _job_worker(job):
                 'clauses': {}, 'safety': [], 'inputs': {}, 'seconds': 0, 'solver_s': 0, 'backend': None, 'log': ''}
 
 
+def safety_key(desc):
+    """stable identity of a generated safety obligation: kind + file, no line numbers (harmless edits move lines)"""
+    d = re.sub(r'\s+', ' ', desc).strip()
+    m = re.match(r'(ubsan:\S+|glm-assert|unreachable|trap|ub:\S+|llvm\.assume)\s*([^\s:]*)', d)
+    if m:
+        return ('%s %s' % (m.group(1), m.group(2))).strip()
+    return d[:120]
+
+
 class Prop:
     def __init__(self, pid, title=''):
         self.id = pid
@@ -196,14 +205,27 @@ class Prop:
                    'workdir': wd, 'replace': c.replace, 'backends': list(c.backends), 'unwind': c.unwind,
                    'timeout': c.timeout if tier == 'quick' else max(c.timeout, 900), 'in_names': [n for t, n in sig['ins']],
                    'cbmc_flags': list(c.flags), 'poison_flags': c.poison_flags}
+            if c.kind == 'U':
+                job['cbmc_flags'] = job['cbmc_flags'] + ['--pointer-check', '--bounds-check']
             jobs.append(job)
             jobmeta[c.fn] = (c, sig, ens, fnd)
+            sfnd = {k: f for k, f in fnd.items() if k.startswith('safety:')}
+            if sfnd:
+                text2, lines2 = harness_text(c, sig, '@@GEN@@', extra_requires=['!(%s)' % f.S for f in sfnd.values()], ensures_override=ens)
+                job2 = dict(job)
+                job2.update({'id': jid + '_x', 'text': text2, 'lines': lines2, 'variant': 'outsideS'})
+                jobs.append(job2)
         results = {}
+        results_x = {}
         with ProcessPoolExecutor(max_workers=NPROC) as ex:
             futs = {ex.submit(_job_worker, j): j for j in jobs}
             for fu in as_completed(futs):
                 r = fu.result()
-                results[r['fn']] = r
+                if futs[fu].get('variant') == 'outsideS':
+                    r['variant'] = 'outsideS'
+                    results_x[r['fn']] = r
+                else:
+                    results[r['fn']] = r
                 log('[%s] %s %s %.1fs %s' % (r['status'], r['fn'], r.get('backend'), r['seconds'],
                                             ' '.join('%s=%s' % kv for kv in r['clauses'].items()) + ' ' + r['detail'][:300]))
 
@@ -237,14 +259,36 @@ class Prop:
                 d.update(kw)
                 obligations.append(d)
                 return d
-            # generated safety obligations (div by zero, traps, pointer checks)
+            # generated safety obligations (div by zero, UBSan traps, GLM asserts, frame checks), grouped by stable key
+            groups = {}
             for pid, desc, st in r['safety']:
-                nm = 'safety:' + re.sub(r'\s+', ' ', desc)[:120]
-                if st == 'SUCCESS':
-                    ob(nm, 'discharged')
-                else:
-                    o = ob(nm, 'refuted')
-                    pending.append((c, sig, 'safety:' + pid, nm, r, wd, desc))
+                groups.setdefault(safety_key(desc), []).append((pid, desc, st))
+            for key, items in groups.items():
+                nm = 'safety:' + key
+                bad = [it for it in items if it[2] != 'SUCCESS']
+                if not bad:
+                    ob(nm, 'discharged', sites=len(items))
+                    continue
+                f = fnd.get(nm)
+                if f is not None:
+                    rx = results_x.get(c.fn)
+                    okx = rx is not None and rx['status'] == 'done' and rx['clauses'].get('__canary') == 'FAILURE' and \
+                        all(st == 'SUCCESS' for (_, d2, st) in rx['safety'] if safety_key(d2) == key)
+                    if okx:
+                        wit = {k: int(v, 0) for k, v in (f.witness or {}).items()}
+                        rp = run_replay(self.builds[c.build], self.builds[c.build].driver.shims[c.fn], c, wit, wd,
+                                        re.sub(r'\W', '_', c.fn + '_w_' + key)[:100], sanitize=True)
+                        if rp.get('ok') and rp.get('rc', 0) != 0 and 'runtime error' in (rp.get('err') or ''):
+                            known_lines.append('KNOWN-FINDING: property=%s %s.%s reachable for inputs {%s} (witness %s); %s' % (
+                                self.id, c.fn, nm, f.S, ' '.join('%s=%s' % kv for kv in (f.witness or {}).items()), f.what))
+                            ob(nm + '__outsideS', 'discharged', note='unreachable outside the recorded input set S: ' + f.S, sites=len(items))
+                            continue
+                    ob(nm, 'refuted')
+                    pending.append((c, sig, 'safety:' + bad[0][0], nm, (rx if (rx and not okx and rx['status'] == 'done') else r), wd,
+                                    'reachable outside the recorded finding, or the witness no longer fails'))
+                    continue
+                ob(nm, 'refuted')
+                pending.append((c, sig, 'safety:' + bad[0][0], nm, r, wd, bad[0][1]))
             for name, e in c.ensures:
                 if name in fnd:
                     f = fnd[name]
